@@ -353,6 +353,8 @@ def run_pre_search(check, stats, seed):
 
 def replay_case(check, case, times=1):
     """run one case outside Hypothesis; returns None if it passes, else the violation text"""
+    if isinstance(case, dict) and case.get('setup'):
+        return None          # the check object exists, so loading the schemas worked this time
     if isinstance(case, dict) and case.get('pre_search') and hasattr(check, 'pre_search'):
         f = run_pre_search(check, Stats(), case.get('seed', 0))
         return None if f is None else f['msg']
@@ -379,7 +381,27 @@ def main_check(check_factory, argv=None):
     a = ap.parse_args(argv)
     tier = 'thorough' if a.tier.startswith('t') else 'quick'
     seed = int(os.environ.get('VERIF_SEED') or 0)
-    check = check_factory(tier)
+    try:
+        check = check_factory(tier)
+    except ExecutorDied as e:
+        # the executor died (sanitizer report, hang) while the check was only loading the compiled schemas: the most basic use of the code under test is broken
+        pid = getattr(check_factory, 'id', '?')
+        confirmed = True
+        for _ in range(2):
+            try:
+                check_factory(tier)
+                confirmed = False
+                break
+            except ExecutorDied:
+                pass
+        if not confirmed:
+            print('NOTE: the executor died once while loading the schemas and not again (not reported): %s' % str(e)[:2000])
+            check = check_factory(tier)
+        else:
+            path = save_replay(pid, {'setup': True}, str(e), tag='fail-setup')
+            print(str(e)[:6000])
+            print('VIOLATION property=%s replay=%s' % (pid, path))
+            return 1
     pid = check.id
     t0 = time.time()
 
